@@ -9,10 +9,12 @@ import (
 	"errors"
 	"fmt"
 	"io"
+	"mime"
 	"net/http"
 	"net/http/httptest"
 	"net/url"
 	"os"
+	"path"
 	"path/filepath"
 	"sort"
 	"strconv"
@@ -391,6 +393,8 @@ type Derived struct {
 	Stamp                  int64
 	DirTag                 string
 	BodyFails              bool
+	MimeTab                [][2]string // mime.TypeByExtension on every extension in the tree and the request path
+	Sniffed                string      // http.DetectContentType of the addressed file
 }
 
 func optS(p *string) string {
@@ -401,7 +405,11 @@ func optS(p *string) string {
 }
 
 func (d Derived) Sx() string {
-	return hx.L("drv", d.DestKind, hx.S(d.DestPath), optS(d.DIfMatch), optS(d.DIfNoneMatch), d.PfForm, hx.I(d.Stamp), hx.S(d.DirTag), hx.B(d.BodyFails))
+	mt := []string{"mime"}
+	for _, e := range d.MimeTab {
+		mt = append(mt, hx.L(hx.S(e[0]), hx.S(e[1])))
+	}
+	return hx.L("drv", d.DestKind, hx.S(d.DestPath), optS(d.DIfMatch), optS(d.DIfNoneMatch), d.PfForm, hx.I(d.Stamp), hx.S(d.DirTag), hx.B(d.BodyFails), hx.L(mt...), hx.S(d.Sniffed))
 }
 
 func decodeTag(h string) *string {
@@ -420,6 +428,7 @@ type Entry struct {
 	ETag    string
 	LastMod bool
 	Values  bool
+	CType   string
 }
 
 type Obs struct {
@@ -433,6 +442,7 @@ type Obs struct {
 	MS      []Entry
 	Leak    bool
 	Panic   bool
+	CType   string // Content-Type of a 200 answer to GET/HEAD
 }
 
 func (o Obs) Sx() string {
@@ -441,9 +451,9 @@ func (o Obs) Sx() string {
 	}
 	ms := []string{"ms"}
 	for _, e := range o.MS {
-		ms = append(ms, hx.L("e", hx.S(e.Href), hx.B(e.Dir), hx.S(e.CLen), hx.S(e.ETag), hx.B(e.LastMod), hx.B(e.Values)))
+		ms = append(ms, hx.L("e", hx.S(e.Href), hx.B(e.Dir), hx.S(e.CLen), hx.S(e.ETag), hx.B(e.LastMod), hx.B(e.Values), hx.S(e.CType)))
 	}
-	return hx.L("obs", hx.I(int64(o.Status)), hx.S(o.Allow), hx.S(o.DAV), optS(o.Body), hx.S(o.CLen), hx.S(o.ETag), hx.B(o.LastMod), hx.L(ms...), hx.B(o.Leak))
+	return hx.L("obs", hx.I(int64(o.Status)), hx.S(o.Allow), hx.S(o.DAV), optS(o.Body), hx.S(o.CLen), hx.S(o.ETag), hx.B(o.LastMod), hx.L(ms...), hx.B(o.Leak), hx.S(o.CType))
 }
 
 type msDoc struct {
@@ -459,6 +469,7 @@ type msDoc struct {
 				CLen    *string `xml:"DAV: getcontentlength"`
 				ETag    *string `xml:"DAV: getetag"`
 				LastMod *string `xml:"DAV: getlastmodified"`
+				CType   *string `xml:"DAV: getcontenttype"`
 			} `xml:"prop"`
 		} `xml:"propstat"`
 	} `xml:"response"`
@@ -496,6 +507,9 @@ func parseMS(body []byte) ([]Entry, error) {
 					t = "UNQUOTABLE:" + *ps.Prop.ETag
 				}
 				e.ETag = t
+			}
+			if ps.Prop.CType != nil {
+				e.CType = *ps.Prop.CType
 			}
 			if ps.Prop.LastMod != nil {
 				e.LastMod = true
@@ -559,6 +573,40 @@ func (s *Sandbox) Do(r Req, before *Node) (Derived, Obs, *Node) {
 	d.DIfNoneMatch = decodeTag(r.IfNoneMatch)
 	if fi, err := s.FS.Stat(context.Background(), r.Path); err == nil && fi.IsDir {
 		d.DirTag = fi.ETag
+	}
+	// media types: the registry for every extension in play, and what the content of the
+	// addressed file looks like (both are library functions the model takes as inputs)
+	exts := map[string]bool{path.Ext(r.Path): true}
+	var walkExt func(n *Node)
+	walkExt = func(n *Node) {
+		if n == nil || !n.IsDir {
+			return
+		}
+		for _, k := range n.Names {
+			exts[path.Ext(k)] = true
+			walkExt(n.Kids[k])
+		}
+	}
+	walkExt(before)
+	var es []string
+	for e := range exts {
+		es = append(es, e)
+	}
+	sort.Strings(es)
+	for _, e := range es {
+		d.MimeTab = append(d.MimeTab, [2]string{e, mime.TypeByExtension(e)})
+	}
+	if (r.Method == "GET" || r.Method == "HEAD") && !strings.Contains(r.Path, "\x00") {
+		if lp, err := webdav.VerifLocalPath(s.FS, r.Path); err == nil {
+			if fi, err := os.Stat(lp); err == nil && !fi.IsDir() {
+				if b, err := os.ReadFile(lp); err == nil {
+					if len(b) > 512 {
+						b = b[:512]
+					}
+					d.Sniffed = http.DetectContentType(b)
+				}
+			}
+		}
 	}
 
 	var body io.Reader
@@ -684,6 +732,7 @@ func (s *Sandbox) Do(r Req, before *Node) (Derived, Obs, *Node) {
 		o.ETag = res.Header.Get("ETag")
 		o.LastMod = res.Header.Get("Last-Modified") != ""
 		if o.Status == 200 {
+			o.CType = res.Header.Get("Content-Type")
 			o.CLen = res.Header.Get("Content-Length")
 			if r.Method == "GET" {
 				b := string(raw)
